@@ -78,4 +78,9 @@ CHECKS = {
   "note": "Trusted: numpy/scipy dense references, driver gdrv_sp. Sizes up to 12x10.",
   "technique": "property-based testing (Hypothesis) against dense reference implementations",
  },
+ "C12": {
+  "text": "Generated-input search: noisy networks with identifiers / descriptions / extern values containing XML specials, non-ASCII and long strings, generated --cov-band, angular unit, language and encoding; one run of the real binary writes XML, HTML, text and Octave; checks: well-formed XML with exact identifiers, gama's own XML reader equal to my reader field by field, HTML reader to HTML precision, text and Octave carrying the same coordinates and v'Pv, compare-xyz and gama-local-deformation on identical and translated epochs.",
+  "note": "Trusted: Python expat + my reader as reference, small purpose-built readers of the text/Octave layouts. Two known findings about the HTML reader (entity-split identifiers, non-English labels) are excluded by tag.",
+  "technique": "property-based round-trip / differential testing (Hypothesis) across gama's writers, readers and companion tools",
+ },
 }
